@@ -68,7 +68,8 @@ B. "Jointly permuting all rows leaves metric results unchanged"
    B2 group_min / group_max / difference / ratio | ofFrame_perm, aggregate_perm                                 | FULL
    B3 the six named fairness metrics          | fairness_perm, dpDifference_perm, eoddsDifference_perm              | FULL
    B4 moments (beyond the clause)             | moment_index_perm, moment_gamma_perm, moment_signedWeights_perm,
-                                               errorRate_gamma_perm, bgl_gamma_perm                                | FULL
+                                               moment_bound_perm, errorRate_gamma_perm, errorRate_signedWeights_perm,
+                                               bgl_gamma_perm, bgl_signedWeights_perm                              | FULL
    B5 ThresholdOptimizer                      | —                                           | CORRESPONDENCE-ONLY (to/perm);
                                                EG / GridSearch: no permutation stream (GridSearch drops the last-SEEN group)
 C. "renaming group labels by a bijection only renames the corresponding index entries"
@@ -236,6 +237,40 @@ theorem bgl_gamma_perm (l : Loss) {rows rows' : List LRow} {h h' : List Rat}
   apply List.map_congr_left
   intro g _
   exact bglGammaAt_joint_perm l hl hl' hp g
+
+/-! #### (review) the remaining moment observables the check's `mom` stream evaluates (ops `mom.bound`, `mom.err.sw`,
+`mom.bgl.sw`) had no theorem of this property -/
+
+open Moments in
+/-- `Moment.bound()` is indexed like `Moment.index`: same vector for permuted rows -/
+theorem moment_bound_perm (ev : Ev) (eps : Rat) {rows rows' : List Moments.Row} (hp : rows.Perm rows') :
+    bound ev rows eps = bound ev rows' eps := by
+  unfold bound
+  rw [index_perm ev hp]
+
+open Moments in
+/-- `ErrorRate.signed_weights` (with or without a multiplier) travel with their rows -/
+theorem errorRate_signedWeights_perm (fp fn : Rat) (lam : Option Rat) {ys ys' : List Rat} (hp : ys.Perm ys') :
+    (ys.zip (errWeights fp fn ys lam)).Perm (ys'.zip (errWeights fp fn ys' lam)) := by
+  cases lam <;> simp only [errWeights, zip_map_self] <;> exact hp.map _
+
+open Moments in
+/-- `BoundedGroupLoss.signed_weights(lambda)` travel with their rows (the group frequencies and the index do not
+    depend on the row order) -/
+theorem bgl_signedWeights_perm (lam : Option (List Rat)) {rows rows' : List LRow} (hp : rows.Perm rows') :
+    (rows.zip (bglSignedWeights rows lam)).Perm (rows'.zip (bglSignedWeights rows' lam)) := by
+  cases lam with
+  | none => simp only [bglSignedWeights, zip_map_self]; exact hp.map _
+  | some lv =>
+    have h : bglSignedWeights rows' (some lv) =
+        rows'.map (fun r => MomentsSrc.bglAdjust (lookup (bglIndex rows) lv r.g) (probG rows r.g)) := by
+      simp only [bglSignedWeights]
+      apply List.map_congr_left
+      intro r _
+      rw [bglIndex_perm hp, probG_perm hp]
+    rw [h]
+    simp only [bglSignedWeights, zip_map_self]
+    exact hp.map _
 
 /-! ### (4) relabelling the feature values -/
 
@@ -601,6 +636,11 @@ example : (([⟨1, "a"⟩, ⟨0, "b"⟩, ⟨1/2, "a"⟩] : List Moments.LRow).zi
     Moments.bglGamma (.square 0 1) [⟨1, "a"⟩, ⟨0, "b"⟩, ⟨1/2, "a"⟩] [1, 1/2, 0] = [1/8, 1/4] ∧
     Moments.bglGamma (.square 0 1) [⟨1/2, "a"⟩, ⟨1, "a"⟩, ⟨0, "b"⟩] [0, 1, 1/2] = [1/8, 1/4] := by
   decide +kernel
+
+/-- `bgl_signedWeights_perm`: weights λ_g / P[g] with two groups of different size — not constant -/
+example : Moments.bglSignedWeights [⟨1, "a"⟩, ⟨0, "b"⟩, ⟨1/2, "a"⟩] (some [1, 2]) = [3/2, 6, 3/2] ∧
+    Moments.bglSignedWeights [⟨0, "b"⟩, ⟨1/2, "a"⟩, ⟨1, "a"⟩] (some [1, 2]) = [6, 3/2, 3/2] ∧
+    Moments.errWeights 1 2 [1, 0, 1, 0] (some (3/4)) = [3/2, -3/4, 3/2, -3/4] := by decide +kernel
 
 /-! ### (5) containers and index labels -/
 
